@@ -303,6 +303,8 @@ func appAVP(kind string) *diam.AVP {
 	switch kind {
 	case "As":
 		return u(259, 3) // Base Accounting: acct
+	case "Vy":
+		return grp(u(266, 10415), u(258, 16777999)) // an application only a custom dictionary knows
 	case "Au":
 		return u(258, 4) // Charging Control: auth
 	case "Au2":
@@ -431,7 +433,11 @@ func simpleMsg(cmd uint32, flags uint8, app, hbh, e2e uint32, as ...*diam.AVP) [
 func dwrBytes(r *RNG, mode int) []byte {
 	var as []*diam.AVP
 	if mode != 1 {
-		as = append(as, diam.NewAVP(264, 0x40, 0, datatype.DiameterIdentity("peer.example.net")))
+		host := "peer.example.net"
+		if r.Chance(30) { // the same FQDN, spelled with capitals (a DiameterIdentity is case-insensitive)
+			host = "Peer.Example.NET"
+		}
+		as = append(as, diam.NewAVP(264, 0x40, 0, datatype.DiameterIdentity(host)))
 	}
 	if mode != 2 {
 		as = append(as, diam.NewAVP(296, 0x40, 0, datatype.DiameterIdentity("example.net")))
@@ -522,6 +528,16 @@ func genRegs(r *RNG) string {
 }
 
 func genSMServer(r *RNG, n int, op string, emit func(string)) {
+	if op == "tlscer" {
+		for i := 0; i < n; i++ {
+			c := cerSpec{host: 1, realm: 1, inband: []int{2, 2, 1, 0}[r.Intn(4)], apps: []string{[]string{"Au", "Bx", "As", "Vsa"}[r.Intn(4)]}, flags: 0x80, hbh: genID(r), e2e: genID(r)}
+			if r.Chance(30) {
+				c.apps = nil
+			}
+			emit(fmt.Sprintf("smserver tlscer cfg=3 segs=%s", hex.EncodeToString(c.bytes())))
+		}
+		return
+	}
 	if op == "many" {
 		for _, k := range []int{3, 20, 40, 70} {
 			emit(fmt.Sprintf("smserver many n=%d", k))
